@@ -1632,6 +1632,10 @@ config_setting_t *config_setting_add(config_setting_t *parent,
   if((parent->type == CONFIG_TYPE_ARRAY) && !__config_type_is_scalar(type))
     return(NULL); /* only scalars can be added to arrays */
 
+  if((parent->type == CONFIG_TYPE_ARRAY)
+     && !__config_list_checktype(parent, type))
+    return(NULL); /* all elements of an array must have the same type */
+
   if((parent->type == CONFIG_TYPE_ARRAY) || (parent->type == CONFIG_TYPE_LIST))
     name = NULL;
 
